@@ -34,7 +34,7 @@ class AbstractReader(object):
         if self.lowcaseMatching:
             filenames.append(mibname.lower())
 
-        if self.fuzzyMatching:
+        if options.get('fuzzyMatching', self.fuzzyMatching):
             if mibname.lower().endswith('-mib'):
                 filenames.extend(
                     [x[:-4] for x in filenames]
